@@ -2192,17 +2192,24 @@ func (s *Store) Join(jr *proto.JoinRequest) error {
 		return err
 	}
 
+	changeRole := false
 	for _, srv := range configFuture.Configuration().Servers {
 		// If a node already exists with either the joining node's ID or address,
 		// that node may need to be removed from the config first.
 		if srv.ID == raft.ServerID(id) || srv.Address == raft.ServerAddress(addr) {
 			// However, if *both* the ID and the address are the same, then no
-			// join is actually needed.
+			// join is actually needed, unless the node asks for a different role.
 			if srv.Address == raft.ServerAddress(addr) && srv.ID == raft.ServerID(id) {
-				stats.Add(numIgnoredJoins, 1)
-				s.numIgnoredJoins++
-				s.logger.Printf("node %s at %s already member of cluster, ignoring join request", id, addr)
-				return nil
+				if (srv.Suffrage == raft.Voter) == voter {
+					stats.Add(numIgnoredJoins, 1)
+					s.numIgnoredJoins++
+					s.logger.Printf("node %s at %s already member of cluster, ignoring join request", id, addr)
+					return nil
+				}
+				// Same node, different role. Raft changes the role in place,
+				// so there is nothing to remove.
+				changeRole = true
+				continue
 			}
 
 			if err := s.remove(id); err != nil {
@@ -2216,7 +2223,10 @@ func (s *Store) Join(jr *proto.JoinRequest) error {
 
 	var f raft.IndexFuture
 	if voter {
+		// Promotes the node if it is already present as a non-voter.
 		f = s.raft.AddVoter(raft.ServerID(id), raft.ServerAddress(addr), 0, 0)
+	} else if changeRole {
+		f = s.raft.DemoteVoter(raft.ServerID(id), 0, 0)
 	} else {
 		f = s.raft.AddNonvoter(raft.ServerID(id), raft.ServerAddress(addr), 0, 0)
 	}
